@@ -241,6 +241,9 @@ type outgoingConnManager struct {
 	wg     sync.WaitGroup
 	fsm    *fsm
 	state  fsmState
+	// NOTIFICATION to send on a connection that is past the TCP handshake
+	// when the manager is stopped (nil: just close it)
+	stopNotification atomic.Pointer[bgp.BGPMessage]
 }
 
 func newOutGoingConnManager(ctx context.Context, fsm *fsm) *outgoingConnManager {
@@ -318,8 +321,7 @@ func (ocm *outgoingConnManager) run(ch chan<- outgoingConn) {
 				continue
 			case <-ocm.ctx.Done():
 				holdTimer.Stop()
-				conn.SetReadDeadline(time.Now())
-				conn.Close()
+				ocm.closeConn(conn)
 				wg.Wait()
 				return
 			case reason := <-reasonCh:
@@ -355,6 +357,17 @@ func (ocm *outgoingConnManager) run(ch chan<- outgoingConn) {
 	}
 }
 
+// closeConn ends a connection on which our OPEN has been sent.
+func (ocm *outgoingConnManager) closeConn(conn net.Conn) {
+	if m := ocm.stopNotification.Load(); m != nil {
+		// sendNotification closes the connection
+		_ = ocm.fsm.sendNotification(conn, m)
+		return
+	}
+	conn.SetReadDeadline(time.Now())
+	conn.Close()
+}
+
 func (ocm *outgoingConnManager) stop() {
 	ocm.cancel()
 	ocm.wg.Wait()
@@ -362,11 +375,18 @@ func (ocm *outgoingConnManager) stop() {
 	for {
 		select {
 		case c := <-ocm.fsm.outgoingConnCh:
-			c.conn.Close()
+			ocm.closeConn(c.conn)
 		default:
 			return
 		}
 	}
+}
+
+// stopWithNotification is stop for an administrative stop: RFC 4271 8.2.2
+// (ManualStop in OpenSent / OpenConfirm) sends a NOTIFICATION with a Cease.
+func (ocm *outgoingConnManager) stopWithNotification(m *bgp.BGPMessage) {
+	ocm.stopNotification.Store(m)
+	ocm.stop()
 }
 
 type pConfAccess struct {
@@ -900,7 +920,7 @@ func (h *fsmHandler) idle(ctx context.Context) (bgp.FSMState, *fsmStateReason) {
 					// an administratively down peer must not keep dialling (the manager
 					// survives a move to Idle that was not caused by the administrator)
 					if fsm.outgoingConnMgr != nil {
-						fsm.outgoingConnMgr.stop()
+						fsm.outgoingConnMgr.stopWithNotification(bgp.NewBGPNotificationMessage(bgp.BGP_ERROR_CEASE, bgp.BGP_ERROR_SUB_ADMINISTRATIVE_SHUTDOWN, stateOp.Communication))
 					}
 
 				case adminStateUp:
@@ -2204,7 +2224,15 @@ func (h *fsmHandler) loop(ctx context.Context, wg *sync.WaitGroup) {
 		}
 
 		switch reason.Type {
-		case fsmAdminDown, fsmGracefulRestart:
+		case fsmAdminDown:
+			if fsm.outgoingConnMgr != nil {
+				m := reason.BGPNotification
+				if m == nil {
+					m = bgp.NewBGPNotificationMessage(bgp.BGP_ERROR_CEASE, bgp.BGP_ERROR_SUB_ADMINISTRATIVE_SHUTDOWN, nil)
+				}
+				fsm.outgoingConnMgr.stopWithNotification(m)
+			}
+		case fsmGracefulRestart:
 			if fsm.outgoingConnMgr != nil {
 				fsm.outgoingConnMgr.stop()
 			}
